@@ -48,7 +48,7 @@ func ownershipOf(w *World) (*LedgerView, *walkResult, *Violation) {
 func init() {
 	stdProp(&PropSpec{
 		ID: "C10", Level: "exploration",
-		Verdict: []string{"res.nested", "nested.get", "deep.", "inline.", "valueid", "struct.", "witness.verify", "recover.", "panic", "reopen", "size."},
+		Verdict: []string{"res.nested", "nested.get", "deep.", "inline.", "valueid", "struct.", "witness.verify", "recover.", "panic", "reopen", "size.", "reg.parse"},
 		Rule: "nesting-centred histories: depth up to 4, arrays and maps under both kinds of parent, wrapped and bare, every mutator (insert/set/remove/set-type/pop-all/fill/drain) applied through handles of all three origins (insertion, lookup, mutable iteration), children crossing the parent's per-element limit in both directions, parents restructured between obtaining and using a handle, commit/reopen interleaved; after every stride: deep comparison through the outermost roots, inline rule and ancestor structure on the register view (independent parser), value ids, and recovery of the current state from the registers a commit would write. Non-trivial = a child of depth >= 2 was mutated through a handle, and both inlined and standalone children occurred; distinct by trace hash",
 		ExpectedReach: []string{"handle.lookup", "handle.iteration", "reach.inlined-children", "nested.depth>=2", "nested.depth>=3", "nested.standalone-child"},
 	}, stdHooks{
@@ -108,7 +108,7 @@ func init() {
 	pres := map[*World]*pre{}
 	stdProp(&PropSpec{
 		ID: "C11", Level: "exploration",
-		Verdict: []string{"detach.", "res.", "deep.", "valueid", "struct.", "witness.verify", "reach.", "nested.get", "panic", "reopen", "rootid"},
+		Verdict: []string{"detach.", "res.", "deep.", "valueid", "struct.", "witness.verify", "reach.", "nested.get", "panic", "reopen", "rootid", "reg.parse"},
 		Rule: "histories in which handles outlive attachment: children are removed from / overwritten in their parent and kept, the former parent keeps being mutated (also at the old position), the detached child is mutated through the old handle across the inline limit, reloaded by slab id, re-attached elsewhere or disposed of; oracle: every step on a detached container changes only registers of the detached tree (register-view diff with ownership by the independent parser), former parent and detached child compare equal to their model nodes, value ids constant, reachability with detached containers counted as roots. Non-trivial = a detached container was mutated through its old handle while the former parent was also mutated afterwards; distinct by trace hash",
 		ExpectedReach: []string{"child.detached-kept", "detach.child-mutated", "reattach", "detach.diff-checked"},
 	}, stdHooks{
